@@ -126,6 +126,18 @@ def gen_cases(ctx):
                         thresh=rng.choice([1.0, 1.0, 0.5, 0.1, 0.01, 0.0]),
                         perturb=[rng.randint(1, 10 ** 6), rng.choice([0.0, 0.1, 0.4]), rng.choice([0, 50, 200])],
                         trace=2, dumplu=1, timeout=90, kind=kind))
+    # pivot reuse requested on larger matrices with a positive threshold: the requested row is kept only if it passes u*max
+    for k in range(N // 4):
+        kind = kinds[k % len(kinds)]
+        A = gen.matrix(rng, kind, rng.randint(3, 30 if ctx.quick() else 80))
+        pr = list(range(A["n"]))
+        for _ in range(rng.randint(0, 3)):        # the identity, or a few transpositions away from it
+            a, b = rng.randrange(A["n"]), rng.randrange(A["n"]); pr[a], pr[b] = pr[b], pr[a]
+        cid += 1
+        out.append(dict(id=cid, driver="gstrf", m=A["n"], n=A["n"], colptr=A["colptr"], rowind=A["rowind"], vals=A["vals"],
+                        nrhs=0, rhs=[], nprocs=rng.choice([1, 2, 4]), colperm=0, usepr=1, permr=pr, ienv=ienv_choice(rng, k),
+                        thresh=rng.choice([1.0, 0.5, 0.1]), perturb=[rng.randint(1, 10 ** 6), rng.choice([0.0, 0.2]), rng.choice([0, 100])],
+                        trace=2, dumplu=1, timeout=90, kind="usepr-" + kind))
     return out
 
 
@@ -152,7 +164,8 @@ def forced_pivot_cases(ctx, start_id):
             for pr in (itertools.permutations(range(n)) if n <= 3 else [tuple(rng.sample(range(n), n)) for _ in range(2)]):
                 cid += 1
                 out.append(dict(id=cid, driver="gstrf", m=n, n=n, colptr=A["colptr"], rowind=A["rowind"], vals=A["vals"], nrhs=0,
-                                rhs=[], nprocs=rng.choice([1, 2]), colperm=0, usepr=1, permr=list(pr), thresh=0.0,
+                                rhs=[], nprocs=rng.choice([1, 2]), colperm=0, usepr=1, permr=list(pr),
+                                thresh=rng.choice([0.0, 0.0, 0.1, 0.5, 1.0]),     # u > 0: a requested row below u*max must be dropped
                                 ienv=[rng.choice([1, 2]), rng.choice([1, 2]), 2, 1, 1, -50, -50, -30], trace=2, dumplu=1,
                                 timeout=30, kind="forced-n%d" % n))
     return out
